@@ -352,7 +352,7 @@ def check_flow_conservation(G: nx.DiGraph, flow_attr) -> bool:
         if isinstance(out_flow, int) and isinstance(in_flow, int):
             if out_flow != in_flow:
                 return False
-        elif not math.isclose(out_flow, in_flow, rel_tol=1e-9, abs_tol=1e-9):
+        elif not math.isclose(out_flow, in_flow, rel_tol=1e-12, abs_tol=1e-9):      # (round-off of the sums, not a real imbalance: a relative 1e-9 let through flows that no decomposition explains within the solver tolerance)
             return False
 
     return True
